@@ -159,7 +159,7 @@ def run(ctx):
     run_grid(ctx)
     run_settings_ops(ctx)
     # conversion half: mode B on generated models (stage "resolve": parameter value -> per-step fraction -> people) + documented-conversion oracle
-    engine_corr.run_stream(ctx, PROPERTY, ctx.n(60, 2000), focus=lambda r: {"functions": r.random() < 0.5})
+    engine_corr.run_stream(ctx, PROPERTY, ctx.n(60, 2000), focus=lambda r: {"functions": r.random() < 0.5, **({"npops": r.choice([2, 3]), "aggregation": True} if r.random() < 0.35 else {})})
 
 
 def replay(ctx, data):
